@@ -507,7 +507,17 @@ gen_case(const Profile &f)
     for (int k = 0; k < nw; k++) w.emit(WRITE, jx);
     if (chance(40)) w.emit(DWN, jx, pick(0, 1));
     w.end(kX, jx);
-    if (chance(60)) {
+    int aba_op = -1;
+    if (chance(25)) {
+      // ABA variant: a second exclusive section that republishes the version of the first one, started only after
+      // the reader had a chance to sample the free word; the reader is then preempted densely in its fallback
+      aba_op = static_cast<int>(w.ops.size());
+      const int j2 = pick(0, 1);
+      w.emit(ACQ_X, l, j2);
+      w.emit(WRITE, j2);
+      w.emit(SETVER, j2, 0, 1, 0);
+      w.emit(weighted({1, 1}) ? REL : DROP, kX, j2);
+    } else if (chance(60)) {
       w.x_sec(l);  // a second exclusive section: must not overlap a reader's shared grant
     } else if (chance(50)) {
       w.txn(l, false);
@@ -530,6 +540,12 @@ gen_case(const Profile &f)
     }
     // the writer is switched out while it holds X (right after ACQ_X or between its writes)
     c.oppre.push_back({0, static_cast<uint32_t>(pick(1, nw + 1)), 0});
+    if (aba_op >= 0) {
+      c.oppre.push_back({0, static_cast<uint32_t>(aba_op), 0});
+      for (int st = 3; st < 40; st++) {
+        if (chance(30)) c.sched.preempts.push_back({1, static_cast<uint32_t>(st), 0});
+      }
+    }
     if (chance(60)) c.sched.casfails.push_back({1, static_cast<uint32_t>(pick(0, 2))});
     if (nthr >= 3 && chance(50)) c.oppre.push_back({2, static_cast<uint32_t>(pick(0, 2)), pick(0, 1)});
   }
